@@ -686,6 +686,7 @@ class Ctx(_Base):
         self.tokens = []
         self.observed = []
         self._tight = {}
+        self._decided = {}
         self.path_violations = []
         self.active = True
 
@@ -828,8 +829,12 @@ class Ctx(_Base):
             return True
         if z3.is_false(cond):
             return False
+        hit = self._decided.get(cond.get_id())
+        if hit is not None:
+            return hit[1]
         k = self._forced(lambda k: cond if k == 0 else z3.Not(cond))
         if k is not None:
+            self._decided[cond.get_id()] = (cond, k == 0)
             return k == 0
         self.get_model()
         side = self._holds_in_model(cond)
@@ -840,6 +845,7 @@ class Ctx(_Base):
         k = 0 if side else 1
         self.trace.append((k, (1 - k,) if other_sat else ()))
         self.solver.add(cond if side else z3.Not(cond))
+        self._decided[cond.get_id()] = (cond, side)
         self._sharding()
         return side
 
